@@ -14,7 +14,7 @@
              (base + extra bits) followed by a distance symbol 0..29 (base + extra bits); the copy may overlap
              the bytes it produces.
 
-   The output is accumulated newest byte first.  Recursions that follow the data carry a fuel of one more than the
+   The output is accumulated newest byte first (rev_append is the linear-time reversal).  Recursions that follow the data carry a fuel of one more than the
    number of unread bits (every step reads at least one bit); [inflate] itself has no fuel parameter, and running out
    of fuel is the result None like every other failure -- the theorems state [= Some ...]. *)
 From LV Require Import Base.Bytes Spec.ZlibStoredSpec.
@@ -250,7 +250,7 @@ Definition stored_block_in (s : bstream) (out : bytes) : option (bytes * bstream
     let len := le16_value l0 l1 in
     if len + le16_value n0 n1 =? 65535 then
       let k := N.to_nat len in
-      if (k <=? length rest)%nat then Some (rev (firstn k rest) ++ out, ([], skipn k rest)) else None
+      if (k <=? length rest)%nat then Some (rev_append (firstn k rest) out, ([], skipn k rest)) else None
     else None
   | _ => None
   end.
@@ -289,7 +289,7 @@ Definition inflate (data : bytes) : option bytes :=
     if zlib_header_ok cmf flg then
       match blocks (S (8 * length rest)%nat) ([], rest) [] with
       | Some (out_rev, s) =>
-        let out := rev out_rev in
+        let out := rev_append out_rev [] in
         if bytes_eqb (firstn 4 (snd s)) (be32 (adler32 out)) then Some out else None
       | None => None
       end
